@@ -14,6 +14,7 @@ import (
 	"strings"
 	"sync"
 	"testing"
+	"testing/iotest"
 	"time"
 
 	"github.com/ipfs/go-cid"
@@ -227,7 +228,7 @@ func hdr(maj byte, n uint64) []byte {
 
 func TestCheck(t *testing.T) {
 	r := vp.New("C10", "exploration",
-		"messages: {CIDv0, CIDv1 x 3 codecs x 3 hash functions} x {every list of 0..3 addresses over a 5-symbol alphabet incl. unknown-protocol, empty and 300-byte strings} x {extra data nil/empty/1/24/256 bytes} x {orig peer absent/present}, CBOR and JSON round trips; HTTP sender (CBOR and JSON) and pubsub sender for every address list of <=3 over {3 valid, 1 unknown-protocol}, the HTTP sender also with extra data whose only, first or last byte is each of the 256 byte values (lists of <=1 address), with an original-peer field and with extra data carried by the message instead of the sender option, and one message value sent through a sender with extra data of its own and then through a plain one; CBOR decoder: for each corpus encoding every single-byte substitution, every truncation, every CBOR header token at every offset (replacing 0 or 1 byte) singly and a reduced token set in adjacent pairs, lengths at and just above each cap, all byte strings of length <=2. Non-trivial: messages with at least one address or extra data; decoder inputs other than the corpus.",
+		"messages: {CIDv0, CIDv1 x 3 codecs x 3 hash functions} x {every list of 0..3 addresses over a 5-symbol alphabet incl. unknown-protocol, empty and 300-byte strings} x {extra data nil/empty/1/24/256 bytes} x {orig peer absent/present}, CBOR and JSON round trips, the CBOR decoder also fed through readers that deliver one byte / half / 7 bytes per Read or the error together with the last data; HTTP sender (CBOR and JSON) and pubsub sender for every address list of <=3 over {3 valid, 1 unknown-protocol}, the HTTP sender also with extra data whose only, first or last byte is each of the 256 byte values (lists of <=1 address), with an original-peer field and with extra data carried by the message instead of the sender option, and one message value sent through a sender with extra data of its own and then through a plain one; CBOR decoder: for each corpus encoding every single-byte substitution, every truncation, every CBOR header token at every offset (replacing 0 or 1 byte) singly and a reduced token set in adjacent pairs, lengths at and just above each cap, all byte strings of length <=2. Non-trivial: messages with at least one address or extra data; decoder inputs other than the corpus.",
 		"equality treats nil and empty byte fields alike",
 		"allocation bound: input length + 2 x ByteArrayMaxLen + 256 KiB",
 		"decoder inputs run in a worker subprocess with a 6 GiB address-space limit",
@@ -484,6 +485,22 @@ func checkAfterRejectedEncodes(r *vp.Recorder) {
 	}
 }
 
+// chunkReader hands out at most n bytes per Read.
+type chunkReader struct {
+	b []byte
+	n int
+}
+
+func (c *chunkReader) Read(p []byte) (int, error) {
+	if len(c.b) == 0 {
+		return 0, io.EOF
+	}
+	k := min(c.n, len(p), len(c.b))
+	copy(p, c.b[:k])
+	c.b = c.b[k:]
+	return k, nil
+}
+
 func checkRoundTrip(r *vp.Recorder, key string, m *message.Message) {
 	var buf bytes.Buffer
 	var err error
@@ -507,6 +524,32 @@ func checkRoundTrip(r *vp.Recorder, key string, m *message.Message) {
 	if ok, why := msgEqual(m, &back); !ok {
 		r.Violation("cbor:roundtrip-differs:"+why, key, fmt.Sprintf("CBOR round trip changed %s", why), nil)
 		return
+	}
+	// the same bytes arriving the way a network hands them over: one byte at
+	// a time, in halves, in chunks of 7, and with the error delivered together
+	// with the last data (all legal io.Reader behaviour)
+	for _, rd := range []struct {
+		name string
+		mk   func([]byte) io.Reader
+	}{
+		{"one-byte-reads", func(b []byte) io.Reader { return iotest.OneByteReader(bytes.NewReader(b)) }},
+		{"half-reads", func(b []byte) io.Reader { return iotest.HalfReader(bytes.NewReader(b)) }},
+		{"chunks-of-7", func(b []byte) io.Reader { return &chunkReader{b: b, n: 7} }},
+		{"data-with-eof", func(b []byte) io.Reader { return iotest.DataErrReader(bytes.NewReader(b)) }},
+	} {
+		var viaReader message.Message
+		if pn, pm := vp.Guard(func() { err = viaReader.UnmarshalCBOR(rd.mk(buf.Bytes())) }); pn {
+			r.Violation("cbor:decode-panic", key, rd.name+": "+firstLine(pm), nil)
+			return
+		}
+		if err != nil {
+			r.Violation("cbor:decode-error:"+rd.name, key, fmt.Sprintf("decoding the CBOR encoding from a reader with %s failed: %v", rd.name, err), nil)
+			return
+		}
+		if ok, why := msgEqual(m, &viaReader); !ok {
+			r.Violation("cbor:roundtrip-differs:"+rd.name+":"+why, key, fmt.Sprintf("CBOR round trip through a reader with %s changed %s", rd.name, why), nil)
+			return
+		}
 	}
 	// JSON
 	js, err := json.Marshal(m)
